@@ -314,6 +314,15 @@ def check(pid, tier, seed):
                                  coverage=dict(obligations=1, discharged=0, checker_cmd="go build -tags verif", trusted_base=TRUSTED_COMMON,
                                                evaluations=1, distinct_nontrivial=0, explanation="harness build failed: " + out[-500:])))
         return 1
+    if cfg.get("binary") == "harness_race":
+        ok, out = build_harness_race()
+        if not ok:
+            p = write_obligation_replay(pid, "build", "go build -race -tags verif (harness against /repo)", out)
+            print("VIOLATION property=%s replay=%s no-failing-input-found" % (pid, p))
+            write_evidence(pid, dict(property_id=pid, tier=tier, seed=seed, level=cfg["level"], wall_s=time.time() - t0, violations=1,
+                                     coverage=dict(obligations=1, discharged=0, checker_cmd="go build -race -tags verif", trusted_base=TRUSTED_COMMON,
+                                                   evaluations=1, distinct_nontrivial=0, explanation="race harness build failed: " + out[-500:])))
+            return 1
     fok, fout = factgen()
     if not fok:
         notes.append("factgen failed: " + fout[-500:])
